@@ -296,24 +296,35 @@ func c10() []*Ob {
 			Desc: "time rule wiring: the id time is the document's own time unless documentDelayed(..) holds; extractDocTime tries every field of consts.TimeFields with every format of consts.TimeFormats (a field that does not parse does not end the search) and falls back to the request time",
 			Check: func(c *Ctx) {
 				if fn := c.Fn("(*proxy/bulk.processor).Process"); fn != nil {
+					isReqTime := func(v ssa.Value) bool {
+						p, ok := v.(*ssa.Parameter)
+						return ok && p.Parent() == fn && ParamName(p) == "requestTime"
+					}
+					isDelayed := func(x ssa.Value) bool {
+						cl, ok := x.(ssa.CallInstruction)
+						return ok && CallName(cl) == "proxy/bulk.documentDelayed"
+					}
+					isDocTime := func(x ssa.Value) bool {
+						cl, ok := x.(ssa.CallInstruction)
+						return ok && CallName(cl) == "proxy/bulk.extractDocTime"
+					}
 					for _, n := range CallsIn(fn, Callee("seq.NewID")) {
-						phi, ok := Arg(n, 0).(*ssa.Phi)
-						if !ok {
-							c.Violation("prov:Process:id-time", n.Pos(), "the id time is not chosen between the document time and the receive time")
-							continue
-						}
-						okAll := true
-						for i, e := range phi.Edges {
-							if p, isP := e.(*ssa.Parameter); isP && ParamName(p) == "requestTime" {
-								facts := FactsOnEdge(phi.Block().Preds[i], phi.Block())
-								v, found := BoolFact(facts, func(x ssa.Value) bool {
-									cl, ok := x.(ssa.CallInstruction)
-									return ok && CallName(cl) == "proxy/bulk.documentDelayed"
-								})
-								if !(found && v) {
+						// the values the id time may be (an if/else in place, or the returns of an extracted helper)
+						origins := c.P.Origins(Arg(n, 0), nil, 3, Callee("proxy/bulk.extractDocTime"))
+						hasDoc, okAll := false, true
+						for _, o := range origins {
+							switch {
+							case isReqTime(o.Val):
+								if v, found := BoolFact(o.Facts, isDelayed); !(found && v) {
 									okAll = false
 								}
+							case DerivesFrom(o.Val, isDocTime):
+								hasDoc = true
 							}
+						}
+						if !hasDoc || len(origins) < 2 {
+							c.Violation("prov:Process:id-time", n.Pos(), "the id time is not chosen between the document time and the receive time")
+							continue
 						}
 						if okAll {
 							c.Site(n.Pos(), "receive time replaces the document time only under documentDelayed(..)")
@@ -327,11 +338,12 @@ func c10() []*Ob {
 				}
 				// the drift is measured against the receive time of the request, not against the clock at processing time
 				if fn := c.Fn("(*proxy/bulk.processor).Process"); fn != nil {
-					for _, call := range CallsIn(fn, Callee("proxy/bulk.documentDelayed")) {
+					for _, lc := range c.P.FindLifted(fn, CallSel(Callee("proxy/bulk.documentDelayed"))) {
+						call := lc.Call()
 						delay := Arg(call, 0)
-						fromReq := DerivesFrom(delay, func(v ssa.Value) bool {
+						fromReq := c.P.DerivesFromIP(delay, func(v ssa.Value) bool {
 							p, ok := v.(*ssa.Parameter)
-							return ok && ParamName(p) == "requestTime"
+							return ok && p.Parent() == fn && ParamName(p) == "requestTime"
 						})
 						fromClock := DerivesFrom(delay, func(v ssa.Value) bool {
 							cl, ok := v.(ssa.CallInstruction)
